@@ -45,6 +45,21 @@ CHECKS = {
          '(complete finite flag space) and seeded random parameters in random units; TLC decides flags, ValueError contract and every value.'),
    ref='DESIGN.md section 4 C09, section 3.4',
    note=TB + '; tan(beta/2) is computed with math.tan from the angle the object holds; tan 20 deg and pi are 50-digit rationals; the worm thread force is modelled as implemented (O4).'),
+
+ 'C10': dict(
+   technique='TLA+ relation-declaration state machine (Relations.tla / MC_Relations.tla) model-checked over an exact object universe, call sequences replayed on real objects, every execution validated by TLC (Trace_Relations.tla)',
+   text=('Relations.tla makes every declaration call one atomic action with an accept/reject outcome set written from the documentation (ratio, efficiency incl. the worm friction formulas, self-locking criterion, validation); '
+         'TLC checks RelSane, RejectKeeps (a rejected call leaves the state unchanged), MutualAtCall on all call sequences of the bounded model and exports them; the harness replays every sequence on fresh real objects and '
+         'adds seeded random universes with real-valued parameters in random units; after EVERY call (accepted or raising) all public relation attributes of all objects are re-read and TLC validates them against the spec state.'),
+   ref='DESIGN.md section 4 C10, section 3.5',
+   note=TB + '; any applicable error class is accepted when several reasons for rejection apply; thresholds are not judged inside the rounding band.'),
+ 'C20': dict(
+   technique='TLA+ Assemble action of Relations.tla (chain reachable from the motor, duplicate names, self-locking flag, immutability as an action property) model-checked + replay/trace validation with every powertrain re-read after every later call',
+   text=('Assemble is an action of the same state machine: TLC checks AssembledIsChain and PtImmutable on all explored call sequences incl. re-declared relations that re-route the chain; '
+         'the harness assembles real Powertrains at arbitrary points of TLC-enumerated and random sequences (chains of 2..12 elements, duplicate names), re-reads elements / self_locking of every earlier powertrain after every '
+         'later call, attempts assignment, and TLC validates all of it against Relations!Assemble.'),
+   ref='DESIGN.md section 4 C20, section 3.5',
+   note=TB + '; drives-cycles (on which Powertrain() does not terminate, observation O1) are guarded off in the model and skipped in the harness.'),
 }
 
 ALL = ['C%02d' % i for i in range(1, 21)]
